@@ -1,4 +1,5 @@
 import GodiModel.Container
+import GodiModel.Build
 /-!
 Executable checkers for the structural hypotheses the container theorems make about a registry
 (`WF`, `RegWF`, `InstSingleton`, `InstDistinct`). The driver evaluates them on the descriptors the
@@ -47,12 +48,16 @@ def instDistinctB (descs : List Desc) : Bool :=
     | .inst v => descs.all fun d' => !(isInstKind d'.kind v) || d'.ctor == d.ctor
     | _ => true
 
+/-- the node keys phase 1 of Build uses (one per descriptor, one per group) are pairwise distinct -/
+def keysDistinctB (descs : List Desc) : Bool := decide (((graphInput descs).map (·.1)).Nodup)
+
 /-- names of the hypotheses that fail on `descs` (empty = all hold) -/
 def failedHyps (descs : List Desc) : List String :=
   (if sibLifeB descs then [] else ["sibLife"]) ++ (if uniqueIdsB descs then [] else ["uniqueIds"]) ++
   (if sameCtorB descs then [] else ["sameCtor"]) ++ (if selfInB descs then [] else ["selfIn"]) ++
   (if voidAloneB descs then [] else ["voidAlone"]) ++ (if sibCtorB descs then [] else ["sibCtor"]) ++
   (if identUniqueB descs then [] else ["identUnique"]) ++ (if instSibsB descs then [] else ["instSibs"]) ++
-  (if instSingletonB descs then [] else ["instSingleton"]) ++ (if instDistinctB descs then [] else ["instDistinct"])
+  (if instSingletonB descs then [] else ["instSingleton"]) ++ (if instDistinctB descs then [] else ["instDistinct"]) ++
+  (if keysDistinctB descs then [] else ["keysDistinct"])
 
 end Godi.Container
